@@ -1,3 +1,209 @@
-/- C19 property theorems (not written yet) -/
+/-
+C19 — the development server transports requests and responses faithfully (partial).
+Property theorems only (helper lemmas live in Lemmas/Chunked.lean).
+-/
+import WzVerif.Model.Chunked
+import WzVerif.Lemmas.Chunked
+import WzVerif.Gen.Framing
 namespace Wz.Props.C19
+open Wz Wz.Chunked Wz.Gen.Framing
+
+/-- bit `k` of `n` -/
+def bit (n k : Nat) : Bool := (n / 2 ^ k) % 2 == 1
+
+/-- the decision the model makes for combination `k` (see `Gen.Framing`) of status `code`:
+method index `k / 8` (1 = HEAD), Content-Length present `(k / 4) % 2`, handler protocol `(k / 2) % 2`
+(1 = HTTP/1.1); the request-line version `k % 2` is not consulted -/
+def modelBit (code k : Nat) : Bool :=
+  chunkedDecision ((k / 2) % 2 == 1) ((k / 4) % 2 == 1) (k / 8 == 1) code
+
+def checkCombos (hdr frm code : Nat) : Nat → Bool
+  | 0 => true
+  | k + 1 => (bit hdr k == modelBit code k) && (bit frm k == modelBit code k) && checkCombos hdr frm code k
+
+def checkStatuses : List Nat → List Nat → Nat → Bool
+  | h :: hs, f :: fs, k + 1 =>
+    checkCombos h f (statusLo + (nStatus - (k + 1))) nCombos && checkStatuses hs fs k
+  | [], [], 0 => true
+  | _, _, _ => false
+
+/-- **framing_decision** (live table): for every status 100–599 × {GET, HEAD, POST} × Content-Length
+present/absent × handler protocol {1.0, 1.1} × request version {1.0, 1.1}, the real handler sent
+`Transfer-Encoding: chunked` — and chunk-framed the body — exactly when the model's decision says so. -/
+theorem framing_table_matches_model :
+    checkStatuses chunkedHeader bodyFramed nStatus = true := by
+  decide +kernel
+
+/-- **framing_decision** (the rule): chunked ⇔ HTTP/1.1 ∧ no Content-Length ∧ ¬HEAD ∧ ¬1xx ∧
+status ∉ {204, 304}. -/
+theorem framing_decision (protocol11 hasCl isHead : Bool) (code : Nat) :
+    chunkedDecision protocol11 hasCl isHead code = true ↔
+      protocol11 = true ∧ hasCl = false ∧ isHead = false ∧ ¬ (100 ≤ code ∧ code < 200) ∧
+      code ≠ 204 ∧ code ≠ 304 := by
+  cases protocol11 <;> cases hasCl <;> cases isHead <;> simp [chunkedDecision] <;> omega
+
+example : chunkedDecision true false false 200 = true := by decide
+example : chunkedDecision true false true 200 = false := by decide
+example : chunkedDecision true false false 304 = false := by decide
+
+/-! ### request side: DechunkedInput -/
+
+/-- **Size lines round-trip**: the size line a client writes for a chunk of `n` bytes — lower or upper
+case hex, terminated by CRLF or a bare LF — is read back as `n` by `read_chunk_len`
+(Python's `int(line.strip(), 16)`), for every `n`. -/
+theorem chunk_size_line_roundtrip (upper : Bool) (n : Nat) (t : Term) :
+    chunkLenOf (hexOf upper n ++ t.bytes) = .ok n :=
+  chunkLenOf_hexLine upper n t
+
+example : chunkLenOf (hexOf true 255 ++ Term.lf.bytes) = .ok 255 := by rfl
+
+/-- **dechunk_roundtrip**: for every list of non-empty chunks, each with its own terminator style
+(CRLF / LF) and hex case, every terminator of the zero chunk, whatever follows the body on the
+connection (`tail`), and **every** sequence of read sizes, the reads on the de-chunking stream return
+exactly what the same reads on `BytesIO(payload)` return: consecutive slices of the joined chunk data,
+then empty reads (EOF). No size line, terminator or trailing byte is ever delivered, none of the
+payload is lost, and no read raises. -/
+theorem dechunk_roundtrip (chunks : List (Bytes × Term × Bool)) (hne : ∀ c ∈ chunks, c.1 ≠ [])
+    (tf : Term) (tail : Bytes) (sizes : List Nat) :
+    (readMany { wire := encode chunks tf ++ tail } sizes).1 = (slices (payload chunks) sizes).map .ok :=
+  readMany_rep tf tail sizes _ _ (Rep.start chunks hne)
+
+/-- ... hence the concatenation of everything read is the payload (all of it once at least
+`|payload|` bytes were asked for), whatever the read sizes were. -/
+theorem dechunk_roundtrip_concat (chunks : List (Bytes × Term × Bool)) (hne : ∀ c ∈ chunks, c.1 ≠ [])
+    (tf : Term) (tail : Bytes) (sizes : List Nat) :
+    ∃ outs : List Bytes, (readMany { wire := encode chunks tf ++ tail } sizes).1 = outs.map .ok ∧
+      outs.flatten = (payload chunks).take sizes.sum ∧
+      ((payload chunks).length ≤ sizes.sum → outs.flatten = payload chunks) := by
+  refine ⟨slices (payload chunks) sizes, dechunk_roundtrip chunks hne tf tail sizes, slices_flatten _ _, ?_⟩
+  intro h
+  rw [slices_flatten, List.take_of_length_le h]
+
+example : (readMany { wire := encode [([1, 2, 3], .crlf, false), ([4, 5], .lf, true)] .crlf ++ [71, 69, 84] }
+    [2, 2, 5, 1]).1 = [.ok [1, 2], .ok [3, 4], .ok [5], .ok []] := by rfl
+
+/-- **Only OSError escapes, only received bytes are delivered, EOF only after a final chunk** — for
+*every* wire content (well-formed or not), every state of the stream and every read size:
+`readinto` raises nothing but OSError; the bytes it returns were copied, in order, from the part of
+the wire it consumed (never stale or invented bytes — the defect repaired by 68c4de0); it never
+returns more than asked; and it returns fewer bytes than asked only once the final chunk was seen,
+which in turn requires a size line that reads as 0 somewhere in the consumed wire. A body that is
+truncated, or whose framing is damaged, therefore never ends in a clean end-of-body: reading on
+raises OSError. -/
+theorem dechunk_safety (st : DState) (size : Nat) :
+    (∀ e, (readinto st size).1 = .error e → e = "OSError") ∧
+    (∃ pre, st.wire = pre ++ (readinto st size).2.wire ∧
+      ∀ out, (readinto st size).1 = .ok out → out.Sublist pre ∧ out.length ≤ size) ∧
+    (∀ out, (readinto st size).1 = .ok out → out.length < size → (readinto st size).2.done = true) ∧
+    ((readinto st size).2.done = true → st.done = true ∨
+      ∃ a line b, st.wire = a ++ line ++ b ∧ chunkLenOf line = .ok 0) := by
+  have h := readinto_facts st size
+  refine ⟨h.err, ?_, h.eof, h.fin⟩
+  obtain ⟨pre, h1, h2⟩ := h.prov
+  refine ⟨pre, h1, fun out ho => ?_⟩
+  obtain ⟨d, hd1, hd2⟩ := h2 out ho
+  simp only [List.nil_append] at hd1
+  subst hd1
+  exact ⟨hd2, h.le _ ho (by simp)⟩
+
+/-- **dechunk_malformed_error** — the three ways chunk framing can be broken, each for every state
+and wire that exhibits it and every positive read size:
+(a) a size line that is not a hexadecimal number (or is negative) at a chunk boundary,
+(b) the connection ending inside a chunk before the bytes this read needs have arrived,
+(c) chunk data that is not followed by a line terminator
+— each makes the read raise OSError (and, by `dechunk_safety`, nothing but received chunk bytes was
+or will be delivered). -/
+theorem dechunk_malformed_error (st : DState) (size : Nat) (hsize : 0 < size) (hnd : st.done = false) :
+    (st.len = 0 → (∃ e, chunkLenOf (readline st.wire).1 = .error e) →
+      (readinto st size).1 = .error "OSError") ∧
+    (0 < st.len → st.wire.length < min size st.len → (readinto st size).1 = .error "OSError") ∧
+    (0 < st.len → st.len ≤ size → st.len ≤ st.wire.length →
+      isTerminator (readline (st.wire.drop st.len)).1 = false → (readinto st size).1 = .error "OSError") := by
+  have hs0 : size ≠ 0 := by omega
+  refine ⟨?_, ?_, ?_⟩
+  · intro hl ⟨e, he⟩
+    have : e = "OSError" := chunkLenOf_error he
+    subst this
+    simp [readinto, readLoop, hnd, hs0, readHeader, hl, he]
+  · intro hl hshort
+    have hl0 : st.len ≠ 0 := by omega
+    have hneq : ¬ (min size (min st.len st.wire.length) = min size st.len) := by omega
+    simp [readinto, readLoop, hnd, hs0, readHeader, hl0, markDone, afterHeader, hneq]
+  · intro hl hle hwl hterm
+    have hl0 : st.len ≠ 0 := by omega
+    have hmin : min size st.len = st.len := by omega
+    have hmin2 : min st.len st.wire.length = st.len := by omega
+    simp [readinto, readLoop, hnd, hs0, readHeader, hl0, markDone, afterHeader, hmin, hmin2, hterm]
+
+-- (a) `zz`, (b) `64\r\n0123456789` read(20) — the replay of F19 —, (c) `2\r\nabXX`
+example : (readinto { wire := [122, 122, 13, 10] } 5).1 = .error "OSError" := by rfl
+example : (readinto { wire := [54, 52, 13, 10, 48, 49, 50, 51, 52, 53, 54, 55, 56, 57] } 20).1
+    = .error "OSError" := by rfl
+example : (readinto { wire := [50, 13, 10, 97, 98, 88, 88] } 2).1 = .error "OSError" := by rfl
+
+/-! ### response side -/
+
+/-- the pieces an application produced, as the chunk list the writer puts on the wire: empty pieces
+are skipped, sizes in lower-case hex, CRLF everywhere -/
+def asChunks (pieces : List Bytes) : List (Bytes × Term × Bool) :=
+  (pieces.filter (fun d => !d.isEmpty)).map (fun d => (d, Term.crlf, false))
+
+theorem bodyWire_chunked (pieces : List Bytes) : bodyWire true pieces = encode (asChunks pieces) .crlf := by
+  have key : ∀ (ps : List Bytes),
+      (ps.flatMap fun d => if d.isEmpty then [] else hexOf false d.length ++ [13, 10] ++ d ++ [13, 10])
+        ++ [48, 13, 10, 13, 10] = encode (asChunks ps) .crlf := by
+    intro ps
+    induction ps with
+    | nil => rfl
+    | cons d ps ih =>
+      by_cases hd : d.isEmpty = true
+      · simp only [List.flatMap_cons, hd, if_true, List.nil_append]
+        rw [ih]
+        simp [asChunks, hd]
+      · simp only [List.flatMap_cons, hd, Bool.false_eq_true, if_false, List.append_assoc]
+        simp only [List.append_assoc] at ih
+        rw [ih]
+        simp [asChunks, hd, encode, encodeChunk, Term.bytes, List.append_assoc]
+  simpa [bodyWire] using key pieces
+
+/-- **response_wire_roundtrip**: the body the response writer puts on the wire when it chose chunked
+framing, read back through the de-chunking state machine with any read sizes, is exactly the
+concatenation of the pieces the application produced (empty pieces included, they contribute
+nothing); without chunked framing the wire body *is* that concatenation. -/
+theorem response_wire_roundtrip (pieces : List Bytes) (tail : Bytes) (sizes : List Nat) :
+    (readMany { wire := bodyWire true pieces ++ tail } sizes).1 = (slices pieces.flatten sizes).map .ok ∧
+    bodyWire false pieces = pieces.flatten := by
+  have hp : ∀ ps : List Bytes, payload (asChunks ps) = ps.flatten := by
+    intro ps
+    induction ps with
+    | nil => rfl
+    | cons d ps ih =>
+      by_cases hd : d.isEmpty = true
+      · have : d = [] := List.isEmpty_iff.mp hd
+        simp only [asChunks, payload] at ih ⊢
+        simp [this, ih]
+      · simp only [asChunks, payload] at ih ⊢
+        simp [hd, ih]
+  constructor
+  · rw [bodyWire_chunked]
+    have hne : ∀ c ∈ asChunks pieces, c.1 ≠ [] := by
+      intro c hc
+      simp only [asChunks, List.mem_map, List.mem_filter] at hc
+      obtain ⟨d, ⟨_, hd⟩, rfl⟩ := hc
+      intro he
+      simp only at he
+      simp [he] at hd
+    rw [dechunk_roundtrip _ hne, hp]
+  · induction pieces with
+    | nil => rfl
+    | cons d ps ih =>
+      simp only [bodyWire, Bool.false_eq_true, if_false, List.flatMap_cons, List.flatten_cons] at ih ⊢
+      rw [ih]
+      by_cases hd : d.isEmpty = true
+      · simp [List.isEmpty_iff.mp hd]
+      · simp [hd]
+
+example : bodyWire true [[97, 98], [], [99]] = [50, 13, 10, 97, 98, 13, 10, 49, 13, 10, 99, 13, 10, 48, 13, 10, 13, 10] := by
+  rfl
+
 end Wz.Props.C19
